@@ -22,8 +22,8 @@ import (
 
 type script struct {
 	Family string `json:"family"`
-	Body   string `json:"body"` // statements
-	Expr   string `json:"expr"` // last expression (the value)
+	Body   string `json:"body"`           // statements
+	Expr   string `json:"expr"`           // last expression (the value)
 	Want   string `json:"want,omitempty"` // for finishing scripts: fmt.Sprint of the value
 }
 
@@ -42,6 +42,8 @@ var scripts = []script{
 	{"throws", "", "null.f", ""},
 	{"throws", "throw {toString: function(){ throw 1 }}; ", "1", ""},
 	{"throws", "throw {valueOf: function(){ return {} }, toString: function(){ return {} }}; ", "1", ""},
+	// unbounded recursion ends as an error of the script (a RangeError), not as a stack overflow of the process
+	{"throws", "function f(n){ return f(n+1) }; ", "f(0)", ""},
 	{"invalid", "{{{ nope ", "1", ""},
 	{"invalid", "var = ; ", "1", ""},
 	{"nonterminating", "while(true){} ", "1", ""},
@@ -70,16 +72,19 @@ type tcase struct {
 }
 
 type outcome struct {
-	returned bool
-	elapsed  time.Duration
-	err      string // error / non-complete disposition text ("" = success)
-	value    string
+	returned   bool
+	elapsed    time.Duration
+	err        string // error / non-complete disposition text ("" = success)
+	value      string
 	canaryLate time.Duration
 }
 
 const defaultLimit = 400 * time.Millisecond
 
-func run(c tcase) outcome {
+func run(c tcase) outcome { return runFor(c, 12*time.Second) }
+
+// runFor: as run, waiting `grace` beyond the limit for the call to return.
+func runFor(c tcase, grace time.Duration) outcome {
 	loc, err := drv.NewLoc("J", c.State, drv.MustMem())
 	if err != nil {
 		panic(err)
@@ -152,7 +157,7 @@ func run(c tcase) outcome {
 			}
 		}
 	}()
-	wall := limit + 12*time.Second
+	wall := limit + grace
 	select {
 	case <-done:
 		o.returned = true
@@ -378,9 +383,40 @@ func encodedScripts(r *rep.Report) {
 	}
 }
 
+// spin: loops without a statement in their body.  The interpreter looks for the watchdog's
+// interrupt between statements, and these have none (listed finding c14.empty-loop-not-interrupted).
+// Each case that is not stopped leaves a spinning goroutine behind, so they have this child of
+// their own and are few.
+func spin(r *rep.Report) {
+	core.SystemParameters.DefaultJavascriptTimeout = defaultLimit
+	for _, body := range []string{"for(;;){} ", "x: for(;;){} ", "for (var i = 0;;) {} "} {
+		for _, pos := range []string{"run", "action"} {
+			c := tcase{Script: script{"nonterminating", body, "1", ""}, Setting: "control", Pos: pos, State: drv.Kinds[0], LimitMs: 100}
+			r.Journal(c)
+			o := runFor(c, 4*time.Second)
+			r.Case(true, fmt.Sprint("spin", c))
+			r.Count("empty_body_loops", 1)
+			wit := rep.J{"case": c, "returned": o.returned, "elapsed_ms": o.elapsed.Milliseconds(), "error": o.err, "value": o.value, "canary_late_ms": o.canaryLate.Milliseconds()}
+			switch {
+			case !o.returned && o.canaryLate >= 0 && o.canaryLate < time.Second:
+				r.Violate("c14.empty-loop-not-interrupted", "a loop without a statement in its body was not stopped 4 s after its 100 ms limit (the canary armed for the limit fired on time)", wit)
+			case !o.returned:
+				r.Inconclusive("canary late")
+			case o.err == "":
+				r.Violate("", "a script that ran past the timeout was reported as success", wit)
+			}
+		}
+	}
+}
+
 func main() {
 	e := rep.GetEnv()
 	r := rep.New(e)
+	if os.Getenv("C14_SPIN") == "1" {
+		spin(r)
+		r.Write()
+		os.Exit(0)
+	}
 	encodedScripts(r)
 	siblingScopes(r)
 	libraryScripts(r)
